@@ -270,7 +270,7 @@ def signature(f):
     return '%s:%s@%s' % (f['kind'], f['what'] if f['kind'] == 'invariant' else 'rejected', ev)
 
 
-def run_stress(cfgs, tag, shards=8, timeout=600):
+def run_stress(cfgs, tag, shards=8, timeout=600, cmd='stress'):
     """Run stress configurations in parallel worker subprocesses. Returns (results, crashes)."""
     import subprocess
     vh = build_harness()
@@ -283,7 +283,7 @@ def run_stress(cfgs, tag, shards=8, timeout=600):
         fin, fout = os.path.join(wd, 'in%d.json' % i), os.path.join(wd, 'out%d.json' % i)
         json.dump(g, open(fin, 'w'))
         env = dict(os.environ, GOTRACEBACK='all', VERIF_SOCKDIR=wd)
-        p = subprocess.Popen([vh, 'stress', '-in', fin, '-out', fout], cwd=wd, env=env, stdout=subprocess.PIPE,
+        p = subprocess.Popen([vh, cmd, '-in', fin, '-out', fout], cwd=wd, env=env, stdout=subprocess.PIPE,
                              stderr=subprocess.STDOUT, universal_newlines=True)
         procs.append((p, g, fout))
     results, crashes = [], []
